@@ -4,6 +4,8 @@ import (
 	"flag"
 	"fmt"
 	"os"
+	"strconv"
+	"strings"
 )
 
 type opts struct {
@@ -33,7 +35,15 @@ func main() {
 	fs.StringVar(&o.repo, "repo", "/repo", "repository")
 	fs.StringVar(&o.shm, "shm", "", "scratch directory on another filesystem")
 	fs.IntVar(&o.n, "n", 0, "override case count")
+	specs := fs.String("specs", "", "comma separated spec ids to attach (default all)")
 	fs.Parse(os.Args[2:])
+	if *specs != "" {
+		specFilter = map[int]bool{}
+		for _, x := range strings.Split(*specs, ",") {
+			v, _ := strconv.Atoi(x)
+			specFilter[v] = true
+		}
+	}
 	f, ok := families[fam]
 	if !ok {
 		fmt.Fprintln(os.Stderr, "unknown family", fam)
